@@ -29,6 +29,15 @@ class _SubFault(Fault):
     pass
 
 
+class _CodedFault(Fault):
+    """an application fault class that declares a class-level code; instances are raised with a more specific one"""
+    CODE = 'Client.Declared'
+
+
+class _CodedSub(_CodedFault):
+    __namespace__ = 'verif.faults'
+
+
 def _fault_object(c):
     """Forks over the kinds of object handed to the classifier; returns (object, expected status or None)."""
     kind = c.choose(['fault', 'fault_subclass', 'too_long', 'not_found', 'not_found_subclass', 'not_allowed',
@@ -78,6 +87,62 @@ for _n, _f, _s in (('OutProtocolBase', OutProtocolBase, False), ('HttpRpc', Http
                    ('XmlDocument', XmlDocument, False), ('YamlDocument', YamlDocument, False),
                    ('MessagePackDocument', MessagePackDocument, False), ('Soap11', Soap11, True), ('Soap12', Soap12, True)):
     _mk_classify(_n, _f, _s)
+
+
+def _every_error():
+    """an instance of every Fault class the package defines in spyne.error (by introspection)"""
+    import inspect
+    import spyne.error as E
+    out = []
+    for n, k in sorted(vars(E).items()):
+        if not (isinstance(k, type) and issubclass(k, Fault) and k.__module__ == 'spyne.error') or n == 'Redirect':
+            continue
+        params = [p for p in list(inspect.signature(k.__init__).parameters.values())[1:]
+                  if p.default is inspect.Parameter.empty and p.kind in (p.POSITIONAL_ONLY, p.POSITIONAL_OR_KEYWORD)]
+        try:
+            out.append((n, k(*['x' for _ in params])))
+        except Exception:
+            continue
+    return out
+
+
+DOCUMENTED_STATUS = {'Client.RequestTooLong': HTTP_413, 'Client.ResourceNotFound': HTTP_404, 'Client.RequestNotAllowed': HTTP_405,
+                     'Client.InvalidCredentialsError': HTTP_401}
+
+
+def _mk_every_error(name, factory, always_500):
+    @obligation('C09.classify_every_error.%s' % name,
+                targets=['spyne.protocol._outbase:OutProtocolBase.fault_to_http_response_code'],
+                bounded="every Fault class defined in spyne.error (12, found by introspection), one instance each",
+                desc="the status of each of the package's own fault classes is the documented one for its fault code: 413 / "
+                     "404 / 405 / 401 for the four dedicated codes, 400 for any other Client code, 500 otherwise; always 500 "
+                     "for SOAP")
+    def ob(c):
+        prot = factory()
+        errs = _every_error()
+        c.check('fault_classes_found', len(errs) >= 10, detail=[n for n, _ in errs])
+        n = c.choose(list(range(len(errs))), 'fault_class')
+        cname, f = errs[n]
+        out = c.run(prot.fault_to_http_response_code, f)
+        c.check('returns', out.returned, detail=(cname, repr(out)))
+        if not out.returned:
+            return
+        code = f.faultcode
+        if always_500:
+            want = HTTP_500
+        elif code in DOCUMENTED_STATUS:
+            want = DOCUMENTED_STATUS[code]
+        elif code == 'Client' or code.startswith('Client.'):
+            want = HTTP_400
+        else:
+            want = HTTP_500
+        c.check('documented_status_for_the_fault_code', out.value == want, detail=(cname, code, out.value, want))
+    return ob
+
+
+for _n, _f, _s in (('OutProtocolBase', OutProtocolBase, False), ('HttpRpc', HttpRpc, False), ('JsonDocument', JsonDocument, False),
+                   ('XmlDocument', XmlDocument, False), ('Soap11', Soap11, True), ('Soap12', Soap12, True)):
+    _mk_every_error(_n, _f, _s)
 
 
 def _expected_status(family, fault):
@@ -177,6 +242,54 @@ for _f in FAMILIES_ALL:
     _mk_pipeline(_f)
 
 
+def _mk_switched(family):
+    @obligation('C09.switched_out_protocol.%s' % family, targets=['spyne.server.wsgi:WsgiApplication.handle_error',
+                                                                   'spyne.context:MethodContext.set_out_protocol'],
+                bounded="the method picks another output protocol for the request (json / soap11 / xml / http, whichever "
+                        "differs from the configured one) x {return, client fault, server fault, other exception}",
+                desc="when the method chooses the output protocol of the request (ctx.out_protocol = ...), the fault "
+                     "arrives intact in that protocol and the HTTP status is the one documented for the protocol that "
+                     "writes the response (always 500 for SOAP, 400 for Client faults otherwise); other exceptions stay "
+                     "generic")
+    def ob(c):
+        other = c.choose([f for f in ('json', 'soap11', 'xml', 'http') if f != family], 'chosen_out_protocol')
+        h = Harness(c, family, user_outcomes=['return', 'client_fault', 'server_fault', 'non_fault'])
+        h.switch_out = other
+        out = h.run_wsgi('valid')
+        c.check('callable_returns', out.returned, detail=repr(out))
+        if not out.returned:
+            return
+        sr = [t for t in c.trace if t[0] == 'start_response']
+        body = b''.join(t[1] for t in c.trace if t[0] == 'chunk' and isinstance(t[1], bytes))
+        status = sr[0][1] if sr else ''
+        c.check('no_secret_in_response', SECRET.encode() not in body and b'RuntimeError' not in body, detail=body[:300])
+        if h.user_outcome == 'return':
+            c.check('success_status_200', status.startswith('200'), detail=(status, body[:200]))
+            return
+        try:
+            doc = faultdoc.decode_fault(other, body)
+        except Exception as e:
+            c.check('response_decodes_in_the_chosen_protocol', False, detail=(repr(e), body[:300]))
+            return
+        c.check('response_decodes_in_the_chosen_protocol', doc is not None, detail=body[:300])
+        if doc is None:
+            return
+        if h.the_exception is not None:
+            c.check('generic_fault', doc['faultcode'] == 'Server' and doc['faultstring'] == 'Internal Error', detail=doc)
+            c.check('status_500', status.startswith('500'), detail=status)
+        else:
+            f = h.the_fault
+            c.check('code_intact', doc['faultcode'] == f.faultcode, detail=(doc['faultcode'], f.faultcode))
+            c.check('string_intact', doc['faultstring'] == f.faultstring, detail=(doc['faultstring'], f.faultstring))
+            c.check('status_documented_for_the_writing_protocol', status[:3] == _expected_status(other, f),
+                    detail=(status, other, f.faultcode))
+    return ob
+
+
+for _f in ('json', 'soap11', 'http', 'xml'):
+    _mk_switched(_f)
+
+
 HOSTILE_MESSAGES = [u'plain', u'a <word> in brackets', u'<b>bold</b> tail', u'a &amp; b', u'a & b < c > d', u'  blanks around  ',
                     u'two\nlines\tand a tab', u'unicode \u00e9 \U0001f600', u'<![CDATA[x]]>', u'&lt;escaped&gt;', u'"double" \'single\'',
                     u'<!-- comment -->', u'{curly} %s %(x)s', u'x' * 3000]
@@ -189,7 +302,8 @@ def _mk_messages(family):
                                                       'spyne.protocol.soap.soap12:Soap12.gen_fault_codes',
                                                       'spyne.model.fault:Fault.to_dict'],
                 bounded="14 message texts (markup, entities, CDATA, comments, blanks, control characters, non-BMP, format "
-                        "directives, 3000 characters) x 6 fault codes (bare, one and several sub-codes, blank, non-ASCII)",
+                        "directives, 3000 characters) x 6 fault codes (bare, one and several sub-codes, blank, non-ASCII) x 4 fault "
+                        "classes (Fault, a subclass, subclasses declaring a class-level CODE)",
                 desc="a Fault raised by user code reaches the client with exactly the same code and the same message text, "
                      "whatever characters they contain")
     def ob(c):
@@ -198,6 +312,8 @@ def _mk_messages(family):
         form = c.choose([dict, list, tuple], 'complex_as') if family in ('json', 'yaml', 'msgpack') else dict
         h = Harness(c, family, user_outcomes=['client_fault'], prot_kwargs=None if form is dict else dict(complex_as=form))
         h.fault_spec = (code, msg)
+        # the class of the raised object: the library's, an application subclass, one declaring a class-level CODE
+        h.fault_class = c.choose([Fault, _SubFault, _CodedFault, _CodedSub], 'fault_class')
         out = h.run_wsgi('valid')
         c.check('callable_returns', out.returned, detail=repr(out))
         if not out.returned:
@@ -242,11 +358,12 @@ def _mk_serialise(name):
         code, msg = c.str('faultcode'), c.str('faultstring')
         has_detail = c.choose(2, 'has_detail')
         detail = {'k': {'n': 'v'}} if has_detail else None
-        f = Fault('x' if not c.concrete else code, 'y' if not c.concrete else (msg or 'y'), detail=detail)
+        F = c.choose([Fault, _SubFault, _CodedFault, _CodedSub], 'fault_class')
+        f = F('x' if not c.concrete else code, 'y' if not c.concrete else (msg or 'y'), detail=detail)
         f.faultcode, f.faultstring = code, msg
         prot = JsonDocument()
         if name == 'to_dict':
-            out = c.run(Fault.to_dict, Fault, f, prot)
+            out = c.run(Fault.to_dict, F, f, prot)
             c.check('returns', out.returned, detail=repr(out))
             if out.returned:
                 d = out.value
@@ -255,7 +372,7 @@ def _mk_serialise(name):
                 c.check('detail', d.get('detail') == detail)
                 c.check('nothing_else', set(d) <= {'faultcode', 'faultstring', 'detail', 'faultactor'}, detail=sorted(d))
         elif name == 'to_list':
-            out = c.run(Fault.to_list, Fault, f, prot)
+            out = c.run(Fault.to_list, F, f, prot)
             c.check('returns', out.returned, detail=repr(out))
             if out.returned:
                 l = out.value
